@@ -51,6 +51,7 @@ pub struct Stats {
     pub samples: BTreeMap<String, Vec<String>>,
     pub distinct_nontrivial: HashSet<u64>,
     pub max_case_heap: usize,
+    pub hangs: u64,
 }
 
 fn json_str(s: &str) -> String {
@@ -97,6 +98,8 @@ unsafe impl std::alloc::GlobalAlloc for CountingAlloc {
 static GLOBAL: CountingAlloc = CountingAlloc;
 /// heap bytes a codec case may hold at its peak beyond what was allocated before it started (inputs are at most a few KiB)
 const CASE_HEAP_LIMIT: usize = 64 << 20;
+/// hanging cases tolerated per stream before it is cut short (known findings that are hangs: at most 3 per stream)
+const MAX_HANGS: u64 = 12;
 
 fn run_case(engine: &str, f: &[&str]) -> CaseResult {
     match (engine, f) {
@@ -141,7 +144,10 @@ fn worker(engine: &str) {
 struct Isolated { child: Child, rx: mpsc::Receiver<String> }
 
 fn spawn_worker(engine: &str) -> Isolated {
-    let mut child = Command::new(std::env::current_exe().unwrap()).arg("--worker").arg(engine)
+    // the worker runs under an address-space limit (4 GiB): a compilation that allocates without bound aborts ("process died")
+    // instead of exhausting the machine before the watchdog fires
+    let exe = std::env::current_exe().unwrap();
+    let mut child = Command::new("/bin/sh").arg("-c").arg("ulimit -v 4194304 2>/dev/null; exec \"$0\" --worker \"$1\"").arg(&exe).arg(engine)
         .stdin(Stdio::piped()).stdout(Stdio::piped()).stderr(Stdio::null()).spawn().expect("spawn worker");
     let stdout = child.stdout.take().unwrap();
     let (tx, rx) = mpsc::channel();
@@ -183,7 +189,7 @@ fn main() {
     let stdin = std::io::stdin();
     let stdout = std::io::stdout();
     let mut out = std::io::BufWriter::new(stdout.lock());
-    let mut st = Stats { total: 0, diffs: 0, oracle: 0, families: BTreeMap::new(), samples: BTreeMap::new(), distinct_nontrivial: HashSet::new(), max_case_heap: 0 };
+    let mut st = Stats { total: 0, diffs: 0, oracle: 0, families: BTreeMap::new(), samples: BTreeMap::new(), distinct_nontrivial: HashSet::new(), max_case_heap: 0, hangs: 0 };
     for line in stdin.lock().lines() {
         let line = line.expect("stdin");
         if line.is_empty() { continue; }
@@ -210,6 +216,16 @@ fn main() {
             let mut h = std::collections::hash_map::DefaultHasher::new();
             f[..f.len() - 1].hash(&mut h);
             st.distinct_nontrivial.insert(h.finish());
+        }
+        // every hang costs the full watchdog time: after a dozen of them the stream is cut short (the run has its verdict)
+        if res.oracle.as_deref().is_some_and(|o| o.contains("(hang)")) {
+            st.hangs += 1;
+            if st.hangs > MAX_HANGS {
+                writeln!(out, "ORACLE\tstream-cut\tmore than {} cases gave no verdict within {} s each; the remaining cases of this stream were not run", MAX_HANGS, CASE_TIMEOUT_S).unwrap();
+                st.oracle += 1;
+                if let Some(d) = res.diff { st.diffs += 1; if st.diffs <= 200 { writeln!(out, "DIFF\t{}\t{}", line.replace('\t', "\u{1f}"), d).unwrap(); } }
+                break;
+            }
         }
         if let Some(d) = res.diff { st.diffs += 1; if st.diffs <= 200 { writeln!(out, "DIFF\t{}\t{}", line.replace('\t', "\u{1f}"), d).unwrap(); } }
         if let Some(d) = res.oracle { st.oracle += 1; if st.oracle <= 200 { writeln!(out, "ORACLE\t{}\t{}", line.replace('\t', "\u{1f}"), d).unwrap(); } }
